@@ -121,6 +121,9 @@ def exec_loop_paths(interp, s, frame, state):
     try:
         with use_state(state):
             _symbolic_for(interp, s, frame, state, space)
+    except Fork as f:
+        # undecided zero-trip test (raised before the loop touched frame/state): split the path and run the loop again
+        return interp._split(f, fr0, st0, lambda fr, st: exec_loop_paths(interp, s, fr, st), 0)
     except PyRaise as e:
         return [(frame, state, ("raise", e.exc_type, e.msg))]
     return [(frame, state, ("normal",))]
@@ -257,8 +260,23 @@ def _symbolic_for(interp, s, frame, state, space):
     st = state
     where = f"{frame.fname}:{s.lineno}"
     key = (frame.fname, "for", _loop_ordinal(frame, s))
-    # zero-trip: split on hi <= lo unless decided
-    nonempty = interp.decide(sv.cmp(">", hi, lo))
+    # zero-trip: split on hi <= lo unless decided.  Inside the body of an enclosing symbolic loop a split would make the
+    # enclosing body fork; there (interp.merge_zero_trip) the closed-form summary is used for hi >= lo without a split:
+    # sums over an empty range are 0 and scatter conditions lo <= w < hi are false, so state(hi) is the pre-state for
+    # hi == lo.  Variables that only hold the value of the last iteration are unbound after zero trips: they are
+    # poisoned (any later use is an EngineError, i.e. UNDECIDED).
+    merged = False
+    try:
+        nonempty = interp.decide(sv.cmp(">", hi, lo))
+    except Fork:
+        if not getattr(interp, "merge_zero_trip", False):
+            raise
+        try:
+            if not interp.decide(sv.cmp(">=", hi, lo)):
+                raise EngineError("zero-trip merge: range with hi < lo")
+        except Fork:
+            raise EngineError("zero-trip merge needs hi >= lo")
+        nonempty, merged = True, True
     if not nonempty:
         if s.orelse:
             interp.exec_body_single(s.orelse, frame)
@@ -304,6 +322,15 @@ def _symbolic_for(interp, s, frame, state, space):
     # arrays / lists / objects possibly stored into: discover by a first run with *no* heap havoc, record store events
     outs = run_body(env_h, pre_heap, i, [])
     normal = [(fr, st2) for fr, st2, out in outs if out[0] in ("normal", "continue")]
+    saved_merge = getattr(interp, "merge_zero_trip", False)
+    if len(normal) > 1 and not saved_merge:
+        # the body forks: try again with inner symbolic loops summarised without a zero-trip split
+        del st.side[side_mark:]
+        interp.merge_zero_trip = True
+        try:
+            return _symbolic_for_merged_retry(interp, s, frame, state, space)
+        finally:
+            interp.merge_zero_trip = saved_merge
     abnormal = [(fr, st2, out) for fr, st2, out in outs if out[0] not in ("normal", "continue")]
     if abnormal:
         kinds = sorted({o[2][0] + (":" + str(o[2][1]) if o[2][0] == "raise" else "") for o in abnormal})
@@ -448,18 +475,35 @@ def _symbolic_for(interp, s, frame, state, space):
     frame.env.update(env_f)
     for name, summ in summary_env.items():
         if summ[0] in ("last", "last_obj"):
-            frame.env[name] = _instantiate(summ, hi, iz, lo, None)
+            frame.env[name] = _instantiate(summ, hi, iz, lo, None) if not merged else Poison(name, where)
     for sid, c in heap_f.items():
         if sid in summary_heap:
             st.heap[sid] = c
             st.events.append(("store", sid, where, list(st.pc)))
     # new allocations made by the last iteration that remain referenced by last-value variables
-    _import_last_iteration_cells(fr1, st1, st, iz, hi, summary_env, frame)
+    if not merged:
+        _import_last_iteration_cells(fr1, st1, st, iz, hi, summary_env, frame)
     if s.orelse:
         interp.exec_body_single(s.orelse, frame)
 
 
 _MISSING = object()
+
+
+class Poison:
+    """value of a variable that is only defined if a loop ran at least once, after a loop whose trip count may be zero"""
+    def __init__(self, name, where):
+        self.name, self.where = name, where
+
+    def __repr__(self):
+        return f"<possibly-unbound {self.name} after loop at {self.where}>"
+
+    def __getattr__(self, a):
+        raise EngineError(f"use of {self.name!r}, which is unbound if the loop at {self.where} runs zero times")
+
+
+def _symbolic_for_merged_retry(interp, s, frame, state, space):
+    return _symbolic_for(interp, s, frame, state, space)
 
 
 def _loop_ordinal(frame, s):
@@ -582,6 +626,38 @@ def _summarise_array(sid, shape, dt, idx, prev, postv, iz, lo, hi, hv_consts, hv
         return at
     # (2) scatter store: post = ite(cond(i, idx), e(i, idx), prev) with cond selecting idx_k == g_k(i) on some axes
     dec = _decompose_store(postv, prev)
+    if dec is not None and not _contains_any(dec[0], hv_consts, hv_funcs):
+        cond, val = dec
+        # (1b) guarded accumulation: post = ite(cond, prev + inc, prev) with inc free of loop-carried state
+        inc = sv.sub(val, prev)
+        its = [z3.simplify(t) for t in _terms_of(inc)]
+        if not any(_contains_any(t, hv_consts, hv_funcs) for t in its):
+            inc = _subst_val(inc, [])
+            if not _mentions(cond, iz):
+                # the guard does not depend on the iteration: content = ite(guard, pre + Σ inc, pre)
+                def at(k):
+                    def fn(ix, k=k):
+                        pairs = [(a, sv.znum(b)) for a, b in zip(idz, ix)]
+                        g = sv.wrap(z3.simplify(z3.substitute(cond, *pairs))) if pairs else sv.wrap(cond)
+                        return ite(g, lambda: sv.add(pre_fn(ix), Sum(lo, k, lambda t: _subst_val(inc, pairs + [(iz, sv.znum(t))]))),
+                                   lambda: pre_fn(ix))
+                    return Content("arr", A._memo(fn), meta)
+                return at
+            delta = ite(sv.wrap(cond), inc, 0)
+
+            def at(k):
+                def fn(ix, k=k):
+                    pairs = [(a, sv.znum(b)) for a, b in zip(idz, ix)]
+                    return sv.add(pre_fn(ix), Sum(lo, k, lambda t: _subst_val(delta, pairs + [(iz, sv.znum(t))])))
+                return Content("arr", A._memo(fn), meta)
+            return at
+        # (2b) read-modify-write of the stored location: the value mentions the array's own previous content; candidate:
+        # every location is written at most once, so the previous content there is the pre-loop content (the step
+        # obligation checks the candidate like any other summary)
+        if any(_contains_any(t, hv_consts, hv_funcs) for t in _terms_of(val)):
+            val2 = _replace_own_havoc(val, prev, pre_fn)
+            if val2 is not None:
+                dec = (cond, val2)
     if dec is not None:
         cond, val = dec   # z3 bool cond(i, idx), value (SV/Cx) not mentioning havoc
         vts = _terms_of(val) + [cond]
@@ -599,7 +675,45 @@ def _summarise_array(sid, shape, dt, idx, prev, postv, iz, lo, hi, hv_consts, hv
                         return ite(sv.wrap(z3.simplify(c)), v, lambda: pre_fn(ix))
                     return Content("arr", A._memo(fn), meta)
                 return at
+    import os
+    if os.environ.get("PYVC_DEBUG_LOOPS"):
+        print("LOOP-DEBUG array", sid, "prev =", prev, "\npost =", postv)
     raise EngineError(f"array #{sid}: loop effect is neither an accumulation nor an affine scatter store — needs a written summary")
+
+
+def _replace_own_havoc(val, prev, pre_fn):
+    """replace every application H(args) of the havocked content function(s) of this array inside `val` by the pre-loop
+    content at args"""
+    prev = norm(prev)
+    names = {}
+    if isinstance(prev, Cx):
+        parts = (("re", prev.re), ("im", prev.im))
+    else:
+        parts = ((None, prev),)
+    for tag, pt in parts:
+        if not (isinstance(pt, SV) and z3.is_app(pt.t) and pt.t.decl().kind() == z3.Z3_OP_UNINTERPRETED and pt.t.num_args() > 0):
+            return None
+        names[pt.t.decl().name()] = tag
+    pairs = []
+    seen = set()
+    stack = list(_terms_of(val))
+    while stack:
+        e = stack.pop()
+        if e.get_id() in seen:
+            continue
+        seen.add(e.get_id())
+        if z3.is_app(e) and e.decl().kind() == z3.Z3_OP_UNINTERPRETED and e.decl().name() in names:
+            pv = norm(pre_fn(tuple(sv.wrap(a) for a in e.children())))
+            tag = names[e.decl().name()]
+            if isinstance(pv, Cx):
+                pv = pv.re if tag != "im" else pv.im
+            elif tag == "im":
+                pv = 0
+            pairs.append((e, sv.zr(pv) if z3.is_real(e) else sv.z(pv)))
+        stack.extend(e.children())
+    if not pairs:
+        return None
+    return _subst_val(val, pairs)
 
 
 def _decompose_store(postv, prev):
@@ -620,6 +734,19 @@ def _decompose_store(postv, prev):
     t = postv.t
     if z3.is_app(t) and t.decl().kind() == z3.Z3_OP_ITE:
         c, x, y = t.children()
+        if not prev.t.eq(x) and not prev.t.eq(y):
+            # nested guards: bring the term to simplified form, then take cofactors (inside the then-branch the guard is
+            # true, inside the else-branch it is false)
+            ts = z3.simplify(t)
+            if z3.is_app(ts) and ts.decl().kind() == z3.Z3_OP_ITE:
+                c2, x2, y2 = ts.children()
+                x2 = z3.simplify(z3.substitute(x2, (c2, z3.BoolVal(True))))
+                y2 = z3.simplify(z3.substitute(y2, (c2, z3.BoolVal(False))))
+                ps = z3.simplify(prev.t)
+                if ps.eq(y2):
+                    return c2, sv.wrap(x2)
+                if ps.eq(x2):
+                    return z3.Not(c2), sv.wrap(y2)
         if y.eq(prev.t):
             return c, sv.wrap(x)
         if x.eq(prev.t):
